@@ -23,7 +23,7 @@ ASSUMPTIONS = ["statistical channel: 2e5 draws per law, 7 standard errors per mo
 N = {"quick": 96, "thorough": 2400}
 REQUIRE = {"quick": {"lookup_events": 1500, "law_events": 24, "law_correlated": 12, "decoupled_events": 600,
                      "immutability_events": 1000, "branin_zero_inputs": 30, "dataset_checks": 4,
-                     "normalize_events": 200}}
+                     "normalize_events": 200, "closest_events": 100}}
 TIMEOUT = {"quick": 900, "thorough": 3600}
 NDRAW = 200_000
 NSE = 7.0
@@ -49,6 +49,30 @@ def synth_dataset(rng):
             super().__init__()
 
     return DS()
+
+
+def check_closest(mon, rng, ds):
+    """get_closest_indices_from_points with distances (used by the design spaces to locate points)."""
+    from vopy.utils import get_closest_indices_from_points
+
+    n, d = ds.in_data.shape
+    q = rng.random((int(rng.integers(1, 6)), d))
+    if rng.random() < 0.5:
+        q[0] = ds.in_data[int(rng.integers(n))]
+    q0 = q.copy()
+    D2 = ((q[:, None, :] - ds.in_data[None, :, :]) ** 2).sum(-1)
+    for squared in (False, True):
+        idx, dist = get_closest_indices_from_points(q, ds.in_data, return_distances=True, squared=squared)
+        mon.count("closest_events")
+        mon.count("immutability_events")
+        want_d = D2.min(1) if squared else np.sqrt(D2.min(1))
+        ok_idx = all(D2[r, idx[r]] <= D2[r].min() * (1 + 1e-9) + 1e-18 for r in range(len(q)))
+        if not ok_idx or np.abs(np.asarray(dist) - want_d).max() > 1e-7 * (1 + want_d.max()):
+            mon.violation("closest:wrong", f"squared={squared}: indices {idx}, distances {dist}; expected distances {want_d}", {"q": q0, "in_data": ds.in_data})
+        if not np.array_equal(q, q0):
+            mon.violation("closest:input-mutated", "query changed", {})
+    if len(get_closest_indices_from_points([], ds.in_data)) != 0:
+        mon.violation("closest:empty", "empty query should give an empty result", {})
 
 
 def check_lookup(mon, rng, ds, prob, dec):
@@ -332,6 +356,7 @@ def shard(mon, tier, rng, shard_no, nshards):
         wrap_inner(inner)
         dec = DecoupledEvaluationProblem(inner)
         check_lookup(mon, rng, ds, prob, dec)
+        check_closest(mon, rng, ds)
         check_normalize(mon, rng)
         check_branin(mon, rng)
         if len(mon.samples) < 2:
